@@ -381,14 +381,14 @@ theorem encdec_loop (sealf : Seal) (open_ : Open) (h : SealOpen sealf open_)
     have hle' : cd + c * cd ≤ rest.length := by rw [Nat.succ_mul] at hle; omega
     have htk : (rest.take cd).length = cd := by rw [List.length_take]; omega
     have hdl : c * cd ≤ (rest.drop cd).length := by rw [List.length_drop]; omega
-    obtain ⟨ih1, ih2, ih3⟩ := ih (idx+1) (nonceStep aead ivbuf idx) (rest.drop cd) tail hdl
+    obtain ⟨ih1, ih2, ih3⟩ := ih (idx+1) ivbuf (rest.drop cd) tail hdl
     simp only [encLoop]
     generalize hs : sealf k ((nonceStep aead ivbuf idx).take is) (hdr ++ be8 idx) (rest.take cd) = s
     have h1 : s.1.length = cd := by rw [← hs, h.ctLen, htk]
     have h2 : s.2.length = 16 := by rw [← hs]; exact h.tagLen ..
     have ho := h.opens k ((nonceStep aead ivbuf idx).take is) (hdr ++ be8 idx) (rest.take cd)
     rw [hs] at ho
-    generalize hr : encLoop sealf k aead is cd hdr c (idx + 1) (nonceStep aead ivbuf idx) (rest.drop cd) = r at *
+    generalize hr : encLoop sealf k aead is cd hdr c (idx + 1) ivbuf (rest.drop cd) = r at *
     refine ⟨?_, ?_, ?_⟩
     · rw [decLoop]
       have e1 : (s.1 ++ s.2 ++ r.1 ++ tail).take cd = s.1 := by
@@ -442,13 +442,13 @@ theorem aead_decrypt_encrypt (sealf : Seal) (open_ : Open) (h : SealOpen sealf o
   have hs2 := h.tagLen k ((nonceStep aead ivb idx).take (aeadIvLength aead)) (hdr ++ be8 idx) rest
   have hso := h.opens k ((nonceStep aead ivb idx).take (aeadIvLength aead)) (hdr ++ be8 idx) rest
   generalize sealf k ((nonceStep aead ivb idx).take (aeadIvLength aead)) (hdr ++ be8 idx) rest = s at *
-  have hf1 := h.ctLen k ((nonceStep aead (nonceStep aead ivb idx) (idx + 1)).take (aeadIvLength aead))
+  have hf1 := h.ctLen k ((nonceStep aead ivb (idx + 1)).take (aeadIvLength aead))
     (hdr ++ be8 (idx + 1) ++ be8 (chunks * cd + rest.length)) []
-  have hf2 := h.tagLen k ((nonceStep aead (nonceStep aead ivb idx) (idx + 1)).take (aeadIvLength aead))
+  have hf2 := h.tagLen k ((nonceStep aead ivb (idx + 1)).take (aeadIvLength aead))
     (hdr ++ be8 (idx + 1) ++ be8 (chunks * cd + rest.length)) []
-  have hfo := h.opens k ((nonceStep aead (nonceStep aead ivb idx) (idx + 1)).take (aeadIvLength aead))
+  have hfo := h.opens k ((nonceStep aead ivb (idx + 1)).take (aeadIvLength aead))
     (hdr ++ be8 (idx + 1) ++ be8 (chunks * cd + rest.length)) []
-  generalize sealf k ((nonceStep aead (nonceStep aead ivb idx) (idx + 1)).take (aeadIvLength aead))
+  generalize sealf k ((nonceStep aead ivb (idx + 1)).take (aeadIvLength aead))
     (hdr ++ be8 (idx + 1) ++ be8 (chunks * cd + rest.length)) [] = f at *
   obtain ⟨hl1, hl2, hl3⟩ := hloop (s.1 ++ s.2 ++ f.2)
   have hrl : rest.length = input.length - chunks * cd := by rw [hl2, List.length_drop]
@@ -518,12 +518,12 @@ def loopCalls (aead is cd : Nat) (hdr : Bytes) : Nat → Nat → Bytes → Bytes
   | 0, _, _, _ => []
   | c + 1, idx, ivbuf, rest =>
     ((nonceStep aead ivbuf idx).take is, hdr ++ be8 idx, rest.take cd) ::
-      loopCalls aead is cd hdr c (idx + 1) (nonceStep aead ivbuf idx) (rest.drop cd)
+      loopCalls aead is cd hdr c (idx + 1) ivbuf (rest.drop cd)
 
 /-- state after the full chunks: (next index, `ivbuf`, remaining plaintext) -/
 def loopEnd (aead cd : Nat) : Nat → Nat → Bytes → Bytes → Nat × Bytes × Bytes
   | 0, idx, ivbuf, rest => (idx, ivbuf, rest)
-  | c + 1, idx, ivbuf, rest => loopEnd aead cd c (idx + 1) (nonceStep aead ivbuf idx) (rest.drop cd)
+  | c + 1, idx, ivbuf, rest => loopEnd aead cd c (idx + 1) ivbuf (rest.drop cd)
 
 /-- all sealing calls `SymmetricEncryptAEAD` makes for `input`: the chunks, the last chunk, the final tag -/
 def sealCalls (aead cs : Nat) (iv ad input : Bytes) : List (Bytes × Bytes × Bytes) :=
@@ -534,7 +534,7 @@ def sealCalls (aead cs : Nat) (iv ad input : Bytes) : List (Bytes × Bytes × By
   let ivbuf0 := (iv ++ List.replicate 16 0).take 16
   let e := loopEnd aead cd chunks 0 ivbuf0 input
   let ivbuf1 := nonceStep aead e.2.1 e.1
-  let ivbuf2 := nonceStep aead ivbuf1 (e.1 + 1)
+  let ivbuf2 := nonceStep aead e.2.1 (e.1 + 1)
   loopCalls aead is cd hdr chunks 0 ivbuf0 input ++
     [(ivbuf1.take is, hdr ++ be8 e.1, e.2.2),
      (ivbuf2.take is, hdr ++ be8 (e.1 + 1) ++ be8 (chunks * cd + e.2.2.length), [])]
@@ -563,11 +563,11 @@ def tailCalls (aead is cd : Nat) (hdr : Bytes) (T : Nat) :
     Nat → Nat → Bytes → Bytes → List (Bytes × Bytes × Bytes)
   | 0, idx, ivbuf, rest =>
     [((nonceStep aead ivbuf idx).take is, hdr ++ be8 idx, rest),
-     ((nonceStep aead (nonceStep aead ivbuf idx) (idx + 1)).take is,
+     ((nonceStep aead ivbuf (idx + 1)).take is,
         hdr ++ be8 (idx + 1) ++ be8 T, [])]
   | c + 1, idx, ivbuf, rest =>
     ((nonceStep aead ivbuf idx).take is, hdr ++ be8 idx, rest.take cd) ::
-      tailCalls aead is cd hdr T c (idx + 1) (nonceStep aead ivbuf idx) (rest.drop cd)
+      tailCalls aead is cd hdr T c (idx + 1) ivbuf (rest.drop cd)
 
 /-- the sender's cipher text from chunk `idx` on -/
 def tailCipher (sealf : Seal) (k : Bytes) (aead is cd : Nat) (hdr : Bytes) (T : Nat) :
@@ -575,12 +575,12 @@ def tailCipher (sealf : Seal) (k : Bytes) (aead is cd : Nat) (hdr : Bytes) (T : 
   | 0, idx, ivbuf, rest =>
     (sealf k ((nonceStep aead ivbuf idx).take is) (hdr ++ be8 idx) rest).1 ++
     (sealf k ((nonceStep aead ivbuf idx).take is) (hdr ++ be8 idx) rest).2 ++
-    (sealf k ((nonceStep aead (nonceStep aead ivbuf idx) (idx + 1)).take is)
+    (sealf k ((nonceStep aead ivbuf (idx + 1)).take is)
         (hdr ++ be8 (idx + 1) ++ be8 T) []).2
   | c + 1, idx, ivbuf, rest =>
     (sealf k ((nonceStep aead ivbuf idx).take is) (hdr ++ be8 idx) (rest.take cd)).1 ++
     (sealf k ((nonceStep aead ivbuf idx).take is) (hdr ++ be8 idx) (rest.take cd)).2 ++
-      tailCipher sealf k aead is cd hdr T c (idx + 1) (nonceStep aead ivbuf idx) (rest.drop cd)
+      tailCipher sealf k aead is cd hdr T c (idx + 1) ivbuf (rest.drop cd)
 
 /-- the receiver's work from chunk `idx` on: `c` full chunks, the last chunk, the final tag -/
 def decTail (open_ : Open) (k : Bytes) (aead is cd : Nat) (hdr : Bytes) (base : Nat) :
@@ -592,7 +592,7 @@ def decTail (open_ : Open) (k : Bytes) (aead is cd : Nat) (hdr : Bytes) (base : 
           (rest.take (rest.length - 32)) ((rest.drop (rest.length - 32)).take 16) with
       | none => (GPG_ERR_CHECKSUM, [])
       | some p =>
-        match open_ k ((nonceStep aead (nonceStep aead ivbuf idx) (idx + 1)).take is)
+        match open_ k ((nonceStep aead ivbuf (idx + 1)).take is)
             (hdr ++ be8 (idx + 1) ++ be8 (base + (rest.length - 32))) []
             ((rest.drop (rest.length - 32 + 16)).take 16) with
         | none => (GPG_ERR_CHECKSUM, p)
@@ -604,17 +604,16 @@ def decTail (open_ : Open) (k : Bytes) (aead is cd : Nat) (hdr : Bytes) (base : 
           ((rest.drop cd).take 16) with
       | none => (GPG_ERR_CHECKSUM, [])
       | some p =>
-        ((decTail open_ k aead is cd hdr base c (idx + 1) (nonceStep aead ivbuf idx)
+        ((decTail open_ k aead is cd hdr base c (idx + 1) ivbuf
             (rest.drop (cd + 16))).1,
-         p ++ (decTail open_ k aead is cd hdr base c (idx + 1) (nonceStep aead ivbuf idx)
+         p ++ (decTail open_ k aead is cd hdr base c (idx + 1) ivbuf
             (rest.drop (cd + 16))).2)
 
 theorem loopCalls_tail (aead is cd : Nat) (hdr : Bytes) (T : Nat) (c idx : Nat) (ivbuf rest : Bytes) :
     loopCalls aead is cd hdr c idx ivbuf rest ++
       [((nonceStep aead (loopEnd aead cd c idx ivbuf rest).2.1 (loopEnd aead cd c idx ivbuf rest).1).take is,
           hdr ++ be8 (loopEnd aead cd c idx ivbuf rest).1, (loopEnd aead cd c idx ivbuf rest).2.2),
-       ((nonceStep aead (nonceStep aead (loopEnd aead cd c idx ivbuf rest).2.1
-            (loopEnd aead cd c idx ivbuf rest).1) ((loopEnd aead cd c idx ivbuf rest).1 + 1)).take is,
+       ((nonceStep aead (loopEnd aead cd c idx ivbuf rest).2.1 ((loopEnd aead cd c idx ivbuf rest).1 + 1)).take is,
           hdr ++ be8 ((loopEnd aead cd c idx ivbuf rest).1 + 1) ++ be8 T, [])]
       = tailCalls aead is cd hdr T c idx ivbuf rest := by
   induction c generalizing idx ivbuf rest with
@@ -650,8 +649,7 @@ theorem encLoop_tail (sealf : Seal) (k : Bytes) (aead is cd : Nat) (hdr : Bytes)
       (sealf k ((nonceStep aead (loopEnd aead cd c idx ivbuf rest).2.1
           (loopEnd aead cd c idx ivbuf rest).1).take is)
           (hdr ++ be8 (loopEnd aead cd c idx ivbuf rest).1) (loopEnd aead cd c idx ivbuf rest).2.2).2 ++
-      (sealf k ((nonceStep aead (nonceStep aead (loopEnd aead cd c idx ivbuf rest).2.1
-            (loopEnd aead cd c idx ivbuf rest).1) ((loopEnd aead cd c idx ivbuf rest).1 + 1)).take is)
+      (sealf k ((nonceStep aead (loopEnd aead cd c idx ivbuf rest).2.1 ((loopEnd aead cd c idx ivbuf rest).1 + 1)).take is)
           (hdr ++ be8 ((loopEnd aead cd c idx ivbuf rest).1 + 1) ++ be8 T) []).2
       = tailCipher sealf k aead is cd hdr T c idx ivbuf rest := by
   induction c generalizing idx ivbuf rest with
@@ -700,19 +698,19 @@ theorem decLoop_tail (open_ : Open) (k : Bytes) (aead is cd : Nat) (hdr : Bytes)
         rw [hd] at h0; simp [GPG_ERR_CHECKSUM] at h0
       | some p =>
         have hd : decLoop open_ k aead is cd hdr (c + 1) idx ivbuf rest =
-            ((decLoop open_ k aead is cd hdr c (idx + 1) (nonceStep aead ivbuf idx)
+            ((decLoop open_ k aead is cd hdr c (idx + 1) ivbuf
                 (rest.drop (cd + 16))).1,
-             p ++ (decLoop open_ k aead is cd hdr c (idx + 1) (nonceStep aead ivbuf idx)
+             p ++ (decLoop open_ k aead is cd hdr c (idx + 1) ivbuf
                 (rest.drop (cd + 16))).2.1,
-             (decLoop open_ k aead is cd hdr c (idx + 1) (nonceStep aead ivbuf idx)
+             (decLoop open_ k aead is cd hdr c (idx + 1) ivbuf
                 (rest.drop (cd + 16))).2.2) := by
           rw [decLoop]; simp only [if_neg hlt, heq]
         rw [hd] at h0 ⊢
         simp only at h0 ⊢
         have ht : decTail open_ k aead is cd hdr base (c + 1) idx ivbuf rest =
-            ((decTail open_ k aead is cd hdr base c (idx + 1) (nonceStep aead ivbuf idx)
+            ((decTail open_ k aead is cd hdr base c (idx + 1) ivbuf
                 (rest.drop (cd + 16))).1,
-             p ++ (decTail open_ k aead is cd hdr base c (idx + 1) (nonceStep aead ivbuf idx)
+             p ++ (decTail open_ k aead is cd hdr base c (idx + 1) ivbuf
                 (rest.drop (cd + 16))).2) := by
           rw [decTail]; simp only [if_neg hlt, heq]
         rw [ht, ih _ _ _ h0]
@@ -900,7 +898,7 @@ theorem decTail_honest (sealf : Seal) (open_ : Open) (k : Bytes) (aead is cd : N
         have hr1 := congrArg Prod.fst hdec
         have hr2 := congrArg Prod.snd hdec
         simp only at hr1 hr2
-        have hr : decTail open_ k aead is cd hdr base c' (idx + 1) (nonceStep aead ivbuf idx)
+        have hr : decTail open_ k aead is cd hdr base c' (idx + 1) ivbuf
             (rest.drop (cd + 16)) = (0, (decTail open_ k aead is cd hdr base c' (idx + 1)
               (nonceStep aead ivbuf idx) (rest.drop (cd + 16))).2) := Prod.ext hr1 rfl
         cases c with
@@ -920,7 +918,7 @@ theorem decTail_honest (sealf : Seal) (open_ : Open) (k : Bytes) (aead is cd : N
               exact ⟨idx, by omega, by rw [hx]⟩
           have hI' : Ideal sealf open_ k
               ((pre ++ [((nonceStep aead ivbuf idx).take is, hdr ++ be8 idx, prest.take cd)]) ++
-                tailCalls aead is cd hdr T c (idx + 1) (nonceStep aead ivbuf idx) (prest.drop cd)) := by
+                tailCalls aead is cd hdr T c (idx + 1) ivbuf (prest.drop cd)) := by
             rw [tailCalls] at hI
             simpa only [List.append_assoc, List.cons_append, List.nil_append] using hI
           obtain ⟨h1, h2⟩ := ih c (idx + 1) _ _ _ _ _ hpre' (by omega) hI' hr
@@ -1090,7 +1088,7 @@ theorem left16_check (pk : Bytes → Nat) (s : Sig) (pp : PkParams) (a b h0 h1 :
   unfold checkIntegrity
   rw [hl]
   simp only [List.length_cons, List.length_nil, List.getD_cons_zero, List.getD_cons_succ]
-  rw [if_pos ⟨trivial, by simpa using hne⟩]
+  rw [if_pos ⟨trivial, Or.inr (by simpa using hne)⟩]
 
 /-- with a matching `left` field the verdict is the public-key operation's on the encoded digest -/
 theorem left16_pass (pk : Bytes → Nat) (s : Sig) (pp : PkParams) (h0 h1 : Nat) (rest : Bytes)
